@@ -325,6 +325,8 @@ class CFG:
         new_productions = []
         for terminal in self._terminals:
             var = Variable(str(terminal.value) + "#CNF#")
+            while var in self._variables:
+                var = Variable(str(var.value) + "#")
             term_to_var[terminal] = var
         # We want to add only the useful productions
         used = set()
